@@ -343,3 +343,59 @@ def run(m):
     v = [x for x in r["violations"] if not x["witness"].startswith("entity-cut")]
     return {"failing": bool(v), "witness": v[0]["witness"] if v else "autoescape", "call": v[0]["source"] if v else "filter-chain sweep", "result": v[0]["got"] if v else "ok"}
 '''
+
+
+@structural("C05", "safe-values-come-from-markupsafe-only")
+def no_homemade_html_protocol():
+    """`to_liquid_string` trusts any object that has `__html__`: inside liquid/** no class defines
+    `__html__` (safe strings are markupsafe.Markup values whose constructions are enumerated by the
+    provenance obligation) -- otherwise text assembled from render data would count as safe"""
+    import ast
+    from pyvc import flow, load
+    defs = []
+    for m in load.all_modules():
+        for cname, cnode in load.get_module(m).classes.items():
+            for f in cnode.body:
+                if isinstance(f, (ast.FunctionDef, ast.AsyncFunctionDef)) and f.name == "__html__":
+                    rets = [ast.unparse(r.value)[:50] for r in ast.walk(f) if isinstance(r, ast.Return) and r.value is not None]
+                    ok = bool(rets) and all(r.startswith(("escape(", "Markup.escape(", "markupsafe.escape(")) for r in rets)
+                    if not ok:
+                        defs.append(f"{m}:{cname}.__html__ returns {rets}")
+    return [flow.ob("no-class-of-the-library-declares-itself-safe-html-without-escaping", not defs, str(defs), replay_schema="code", replay_extra={"code": REPLAY_DEBUG_UNDEFINED})]
+
+
+REPLAY_DEBUG_UNDEFINED = r'''
+def run(m):
+    from liquid import Environment, DebugUndefined
+    env = Environment(autoescape=True, undefined=DebugUndefined)
+    out = env.from_string("{{ page[key] }}|{{ nosuch }}").render(page={}, key="<script>x</script>")
+    return {"violated": "<script>" in out, "observed": out, "witness": "debug-undefined-message-written-raw"}
+'''
+
+
+@structural("C05", "implicit-environments-are-keyed-on-autoescape")
+def implicit_env_keyed_on_autoescape():
+    """`Template(source, autoescape=True)` must not be served an environment created for
+    autoescape=False: the memo of get_implicit_environment covers every parameter (functools
+    cache over the keyword arguments), autoescape included, and passes it on"""
+    import ast
+    from pyvc import flow, load
+    mod = load.get_module("liquid.environment")
+    fn = mod.funcs["get_implicit_environment"]
+    params = [a.arg for a in fn.args.args + fn.args.kwonlyargs]
+    decos = [ast.unparse(d) for d in fn.decorator_list]
+    cached_on_all = any(d.startswith(("lru_cache", "functools.lru_cache", "cache", "functools.cache")) for d in decos)
+    calls = [c_ for c_ in flow.calls(fn) if flow.dotted(c_.func) == "Environment"]
+    forwarded = bool(calls) and all(flow.kwarg(c_, "autoescape") is not None and flow.dotted(flow.kwarg(c_, "autoescape")) == "autoescape" for c_ in calls)
+    hand_keys = [ast.unparse(st_.value) for st_ in ast.walk(fn) if isinstance(st_, ast.Assign) and any(flow.dotted(t) == "key" for t in st_.targets)]
+    keyed = cached_on_all or any("autoescape" in k for k in hand_keys)
+    return [flow.ob("get_implicit_environment:autoescape-is-a-parameter-part-of-the-memo-key-and-forwarded", "autoescape" in params and keyed and forwarded, f"decorators={decos}; hand-written keys={[k[:80] for k in hand_keys]}; forwarded={forwarded}", replay_schema="code", replay_extra={"code": REPLAY_TEMPLATE_AUTOESCAPE})]
+
+
+REPLAY_TEMPLATE_AUTOESCAPE = r'''
+def run(m):
+    from liquid import Template
+    a = Template("{{ x }}", autoescape=False).render(x="<b>")
+    b = Template("{{ x }}", autoescape=True).render(x="<b>")
+    return {"violated": b != "&lt;b&gt;" or a != "<b>", "observed": [a, b], "witness": "autoescape-template-served-a-non-escaping-environment"}
+'''
